@@ -165,8 +165,10 @@ func (r *rewriter) file(f *ast.File) {
 func (r *rewriter) goStmt(g *ast.GoStmt) ast.Stmt {
 	r.stats["go"]++
 	call := g.Call
+	pos := r.fset.Position(g.Pos())
+	label := &ast.BasicLit{Kind: token.STRING, Value: strconv.Quote(fmt.Sprintf("%s:%d", filepath.Base(pos.Filename), pos.Line))}
 	if fl, ok := call.Fun.(*ast.FuncLit); ok && len(call.Args) == 0 {
-		return &ast.ExprStmt{X: r.call("Go", fl)}
+		return &ast.ExprStmt{X: r.call("GoNamed", label, fl)}
 	}
 	var pre []ast.Stmt
 	fn := r.tmp("f")
@@ -185,7 +187,7 @@ func (r *rewriter) goStmt(g *ast.GoStmt) ast.Stmt {
 	inner := &ast.CallExpr{Fun: fn, Args: args, Ellipsis: call.Ellipsis}
 	lit := &ast.FuncLit{Type: &ast.FuncType{Params: &ast.FieldList{}},
 		Body: &ast.BlockStmt{List: []ast.Stmt{&ast.ExprStmt{X: inner}}}}
-	pre = append(pre, &ast.ExprStmt{X: r.call("Go", lit)})
+	pre = append(pre, &ast.ExprStmt{X: r.call("GoNamed", label, lit)})
 	return &ast.BlockStmt{List: pre}
 }
 
